@@ -66,6 +66,10 @@ def projects(d: Path):
         dict(name="upperice", elements=["E", "H", "HE", "C", "O", "CL"], pseudo_elements=["CR", "CRP", "PHOTON", "CRPHOT"], replacement=[("HE", "He"), ("CL", "Cl")],
              allowed=[], required=[], files=["up.ucl"], formats=["uclchem"], heating=[], cooling=[], binding=[("#HCL", "4321.0"), ("#CO", "1234.5")],
              yields=[("#HCL", "0.003")], shielding=[], rate_modifier=[], ode_modifier=[], grain_model="rr07x", surface="#", bulk="@", grain="GRAIN"),
+        # photodesorption yields given WITHOUT binding energies
+        dict(name="yieldonly", elements=de, pseudo_elements=dp, replacement=[], allowed=[], required=[], files=["gas.ucl"], formats=["uclchem"], heating=[], cooling=[],
+             binding=[], yields=[("#CO", "0.0027"), ("#H", "0.0013")], shielding=[], rate_modifier=[], ode_modifier=[], grain_model="rr07x", surface="#", bulk="@",
+             grain="GRAIN"),
         # explicit grain species (GRAIN0, GRAIN-) and a Leeds-spelled ice
         dict(name="leedsgrain", elements=de, pseudo_elements=dp, replacement=[], allowed=[], required=[], files=["grain.leeds"], formats=["leeds"], heating=[],
              cooling=[], binding=[], yields=[], shielding=[], rate_modifier=[], ode_modifier=[], grain_model="hh93", surface="G", bulk="@", grain="GRAIN"),
@@ -114,12 +118,12 @@ def main(ctx: Ctx) -> int:
     cwd0 = os.getcwd()
     traces = []
     solvers = [("cvode", "dense"), ("cvode", "sparse"), ("odeint", "rosenbrock4")]
-    nrun = 12 if ctx.quick else 72
+    nrun = 14 if ctx.quick else 84
     for k in range(nrun):
         d = ctx.sub("proj") / str(k)
         d.mkdir()
-        base = projects(d)[k % 6]
-        solver, method = solvers[(k // 6) % 3]
+        base = projects(d)[k % 7]
+        solver, method = solvers[(k // 7) % 3]
         # --- tokens with shapes
         ids: dict = {}
 
@@ -160,7 +164,7 @@ def main(ctx: Ctx) -> int:
             req[opt] = [{"shape": "plain", "id": tid_of(opt, val)}]
             cli.append(f"--{cname}='{val}'" if val != "" else f"--{cname}=null")
         oms = [f"{kk}:{fact},[{' '.join(deps)}]" for kk, fact, deps in base["ode_modifier"]]
-        if len(oms) > 1 and (k // 6) % 2 == 1:
+        if len(oms) > 1 and (k // 7) % 2 == 1:
             # the option may be given several times, each value a ';'-separated list that may end with ';' (the form `naunet example` writes)
             omopts = [f"--ode-modifier='{x};'" for x in oms]
         else:
@@ -369,7 +373,7 @@ def main(ctx: Ctx) -> int:
     # histories of a project directory (Project.tla): init / hand edit / render [--force] / render --patch / second init
     import project_life
     project_life.run(ctx, cov)
-    cov["rule"] = "init+render runs over six project kinds x three solver choices with padded / empty tokens in list options; non-trivial = every run"
+    cov["rule"] = "init+render runs over seven project kinds x three solver choices with padded / empty tokens in list options; non-trivial = every run"
     cov["exhaustive"] = False
     return finish(ctx, "model_checking", cov, [
         "token strings live in the driver; TLC sees shapes and ids (per option) and judges the four stages and the field-wise equality",
